@@ -160,7 +160,7 @@ class Sched:
         if self.aborting:
             return
         cur = self.current
-        self.log.append((self.step, cur.id if cur is not None else -1, kind, payload))
+        self.log.append((self.step, cur.id if cur is not None else -1, kind, payload, self.now))
 
     # ------------------------------------------------------------- decisions
     def _decide(self, n, kind, running_enabled, label, inj=()):
